@@ -5,7 +5,12 @@ pub mod async_std {
         pub use crate::shims::std::fs::{File, read, copy, remove_file};
     }
     pub mod io { }
-    pub mod task { }
+    pub mod task {
+        use vstd::prelude::*;
+        #[verifier::external_body]
+        #[verifier::reject_recursive_types(T)]
+        pub struct JoinHandle<T> { t: ::std::marker::PhantomData<T> }
+    }
 }
 pub mod futures {
     pub mod io {
